@@ -154,7 +154,7 @@ def short_jobs(mode):
             for a in (0, 5):
                 jobs.append(Job("short-%s-%d-clen%d-ad%d" % (mode, ks, clen, a), "c03_short.c",
                                 {"KS": ks, "MODE": mode, "CLEN": clen, "ADLEN": a},
-                                aead_cbmc(ks, mode), aead_native(ks, mode), unwind=30, timeout=300,
+                                aead_cbmc(ks, mode), aead_native(ks, mode), unwind=48, timeout=300,
                                 facet="short-input-%s" % mode))
     return jobs
 
@@ -775,6 +775,139 @@ def c19(tier):
         "outside": "actual multi-threaded execution (CBMC's thread support gives no verdict on these functions within budget: DESIGN 5.5); the "
                    "commutation argument is a meta-step; data races inside libc",
         "stubs": AEAD_STUBS, "assumptions": AEAD_ASSUME, "relies_on": ["C06 frame facts"],
+    }
+    return jobs, meta
+
+
+# ---- C06 -------------------------------------------------------------------------------
+@prop("C06")
+def c06(tier):
+    """Memory safety / exact buffer contract: every query of the other properties already runs with exact-size heap
+    objects (NULL for length 0), all CBMC pointer / bounds / overflow / shift checks and 'input unmodified' assertions.
+    C06 re-runs a cross-section of them that touches every public function, every block/tail boundary and every
+    zero-length / NULL case, as its own check."""
+    import copy
+    picked = []
+
+    def take(pid, pred, prefix):
+        for j in PROPS[pid](tier)[0]:
+            if pred(j.name):
+                j2 = copy.copy(j)
+                j2.name = prefix + j.name
+                j2.facet = "memory safety via " + pid + ": " + j.facet
+                picked.append(j2)
+
+    small = lambda n: bool(re.search(r"-ad[0-5]-m([0-9]|1[0-7])-", n)) or bool(re.search(r"-ad(8|16|17|33)-m(0|4|33)-", n))
+    if tier == "quick":
+        small = lambda n: bool(re.search(r"-ad(0|1|4|5)-m[0-9]-alias[03]$", n))
+    take("C01", small, "aead-")
+    take("C08", lambda n: n.startswith("rt-siv") and (bool(re.search(r"-ad(0|3|5)-m[0-9]-alias[03]$", n))), "siv-")
+    take("C03", lambda n: n.startswith("dec-") and bool(re.search(r"-ad(0|5)-m[0-9]-ip", n)) or n.startswith("short-") or n.startswith("checktag-p"), "aead-")
+    take("C08", lambda n: n.startswith("dec-siv") and bool(re.search(r"-ad(0|5)-m[0-9]-ip", n)) or n.startswith("short-"), "siv-")
+    take("C10", lambda n: bool(re.search(r"hash-n([0-9]|1[5-9]|3[1-3]|4[78]|6[3-5])$", n)) or "split" in n or "oneshot" in n, "")
+    take("C11", lambda n: n.startswith("step-posn") and bool(re.search(r"posn(0|1|7|15)-len([0-9]|1[5-8]|3[1-3])$", n)) or n.startswith("finalize") or
+         n.startswith("init") or n.startswith("reinit") or n.startswith("null-update"), "hash-")
+    take("C12", lambda n: True, "")
+    take("C13", lambda n: "stream" in n or "wrapper" in n or bool(re.search(r"step-n(1|2|255|0)-posn(0|31|32)-req(0|1|33)$", n)), "")
+    take("C14", lambda n: "out" in n or bool(re.search(r"F-c[01]-", n)), "")
+    take("C15", lambda n: bool(re.search(r"gen-size(1|32|33|70)-", n)) or n.startswith("gen-size0") or n.startswith("feed-len") or
+         n.startswith("reseed") or n.startswith("init-") or n == "setlimit", "prng-")
+    take("C18", lambda n: n.startswith("trng-"), "")
+    take("C20", lambda n: n.startswith("free-") or bool(re.search(r"clean-n([0-9]|3[1-3]|70)-off[03]-default$", n)), "")
+    take("C05", lambda n: n.startswith("c32-") and ("lemmaB-r1" in n or "lemmaB-r24" in n or "lemmaB-r5" in n), "perm-")
+    meta = {
+        "functions": ["all 37 functions declared in src/TinyJAMBU.h (12 AEAD/SIV, 6 hash, 6 HMAC, 4 HKDF, 1 PBKDF2, 7 PRNG, tinyjambu_clean) plus "
+                      "tinyjambu_trng_generate and the three portable permutations"],
+        "units": ["every .c file under src/ that the host build compiles"],
+        "bounds": "every caller buffer is a separate heap object of EXACTLY the declared length (NULL when the length is 0), state objects are "
+                  "exactly the public type - or exactly the private struct where that is smaller, so that touching the padding is a failure; CBMC "
+                  "pointer, bounds, pointer-overflow, signed-overflow, undefined-shift and division checks on; inputs compared with a saved copy "
+                  "after the call; output lengths exact. Shape windows: AEAD/SIV ad in {0,1,4,5} x m in 0..9 separate and fully in place (thorough: "
+                  "wider incl. 17, 33), decrypt of arbitrary packets, clen 0..7; hash lengths 0..9,15..19,31..33,47,48,63..65 and 3-way splits, step "
+                  "lemma posn {0,1,7,15} x len {0..9,15..18,31..33}; HMAC key lengths 0..200; HKDF / PBKDF2 / PRNG / TRNG / clean as in C13-C18, C20; "
+                  "real permutation code at r in {1,5,24}.  'Outputs never depend on uninitialised memory': an uninitialised local is a fresh "
+                  "nondeterministic value in CBMC, so every conformance query (output == deterministic model for all nondet) excludes it.",
+        "outside": "alignment (CBMC's memory model is alignment-agnostic: no query here can see a misaligned wide access; the C sources access "
+                   "caller buffers bytewise, see DESIGN); optimised objects and sanitizer builds (different technique); NULL + 0 pointer arithmetic "
+                   "and mem*(p, NULL, 0) on zero-length buffers are recorded as notes, not violations",
+        "stubs": AEAD_STUBS + CUT2_STUBS[1:2] + [FOLD_STUB], "assumptions": AEAD_ASSUME, "relies_on": [],
+    }
+    return picked, meta
+
+
+# ---- C07 -------------------------------------------------------------------------------
+def ct_job(name, defines, branch, plain, native, facet, tier, backend="sat", unwind=300, timeout=None):
+    defines = dict(defines)
+    defines.setdefault("TRMAX", 3000)
+    unwind = defines["TRMAX"] + 16
+    return Job(name, "c07_ct.c", defines, plain, native, backend=backend, unwind=unwind,
+               timeout=timeout or (900 if tier == "quick" else 3000), facet=facet, branch_srcs=branch)
+
+
+@prop("C07")
+def c07(tier):
+    jobs = []
+    lens = [(0, 0), (1, 2), (3, 5), (4, 8), (5, 9), (7, 3)] if tier == "quick" else \
+           [(a, m) for a in (0, 1, 2, 3, 4, 5, 8) for m in (0, 1, 2, 3, 4, 5, 9, 16, 17)]
+    for ks in KSS:
+        for mode in ("aead", "siv"):
+            lib = D.aead_srcs(ks, mode) + LIBC
+            nat = D.perm_real(ks)
+            for (a, m) in lens:
+                if tier == "quick" and mode == "siv" and (a, m) not in ((0, 0), (3, 5), (5, 9)):
+                    continue
+                for api, nm in ((1, "enc"), (2, "dec")):
+                    jobs.append(ct_job("ct-%s-%s-%d-ad%d-m%d" % (mode, nm, ks, a, m), {"API": api, "KS": ks, "MODE": mode, "VL1": a, "VL2": m},
+                                       lib, PERM_UF, nat, "%s %s" % (mode, nm), tier, backend="z3"))
+    util = S("backend/tinyjambu-util.c")
+    for p in ((0, 1, 8, 31) if tier == "quick" else (0, 1, 2, 7, 8, 9, 31, 32, 33, 64)):
+        jobs.append(ct_job("ct-checktag-p%d" % p, {"API": 11, "VL1": p}, util + LIBC, [], [], "tag check and plaintext clearing (real code)", tier))
+    for (n, c1) in ((0, 0), (5, 2), (16, 16), (17, 1), (33, 20), (40, 0)) if tier == "quick" else \
+            [(n, c1) for n in (0, 1, 15, 16, 17, 31, 32, 33, 48, 70) for c1 in (0, n // 2, n)]:
+        jobs.append(ct_job("ct-hash-n%d-c%d" % (n, c1), {"API": 12, "VL1": n, "VL2": c1}, HASH_REAL + CLEAN + LIBC, PERM_UF, D.perm_real(256),
+                           "hash init/update/update/finalize/free", tier, backend="kissat"))
+    kdf_plain = ABSFOLD
+    kdf_nat = HASH_REAL + D.perm_real(256)
+    hm = S("tinyjambu-hmac.c") + CLEAN + LIBC
+    for (k, m) in ((0, 0), (5, 9), (64, 3), (65, 20)) if tier == "quick" else [(k, m) for k in (0, 1, 32, 63, 64, 65, 100) for m in (0, 7, 33)]:
+        jobs.append(ct_job("ct-hmac-k%d-m%d" % (k, m), {"API": 13, "VL1": k, "VL2": m}, hm, kdf_plain, kdf_nat, "HMAC one-shot", tier, backend="z3"))
+    for (k, sa, o) in ((16, 0, 33), (5, 16, 70)) if tier == "quick" else ((16, 0, 33), (5, 16, 70), (0, 0, 1), (65, 65, 100)):
+        jobs.append(ct_job("ct-hkdf-k%d-s%d-out%d" % (k, sa, o), {"API": 14, "VL1": k, "VL2": sa, "VL3": o}, hm + S("tinyjambu-hkdf.c"), kdf_plain, kdf_nat,
+                           "HKDF extract + expand + free", tier, backend="z3", unwind=400))
+    for (pw, sa, o, c) in ((5, 3, 33, 2), (65, 0, 32, 3)) if tier == "quick" else ((5, 3, 33, 2), (65, 0, 32, 3), (0, 0, 64, 1), (64, 16, 40, 4)):
+        jobs.append(ct_job("ct-pbkdf2-pw%d-s%d-out%d-c%d" % (pw, sa, o, c), {"API": 15, "VL1": pw, "VL2": sa, "VL3": o, "COUNT": c},
+                           hm + S("tinyjambu-pbkdf2.c"), kdf_plain, kdf_nat, "PBKDF2", tier, backend="z3", unwind=400))
+    for cfg in ("default", "volatile"):
+        for n in (0, 1, 33):
+            j = ct_job("ct-clean-n%d-%s" % (n, cfg), {"API": 16, "VL1": n}, CLEAN + LIBC, [], [], "tinyjambu_clean (%s)" % cfg, tier)
+            j.config = cfg
+            jobs.append(j)
+    prng_lib = S("tinyjambu-prng.c", "random/tinyjambu-trng-dev-random.c") + CLEAN + LIBC
+    for (sz, ctr, lim, k, fl) in ((33, 1, 32, 32, 3), (40, 32, 32, 1, 0), (1, 40, 32, 0, 8)) if tier == "quick" else \
+            ((33, 1, 32, 32, 3), (40, 32, 32, 1, 0), (1, 40, 32, 0, 8), (70, 2, 2, 31, 5), (64, 1, 1, 32, 1)):
+        jobs.append(ct_job("ct-prng-size%d-ctr%d-lim%d-k%d-feed%d" % (sz, ctr, lim, k, fl),
+                           {"API": 20, "VL1": sz, "CTR": ctr, "LIMIT": lim, "VL3": k, "VL2": fl}, prng_lib, kdf_plain, kdf_nat,
+                           "PRNG generate + feed + reseed (256-bit carry chain)", tier, backend="z3", unwind=400))
+    for ks in KSS:
+        for r in ((1, 5, 8) if tier == "quick" else (1, 2, 3, 5, 8, 9, 10, 20)):
+            jobs.append(ct_job("ct-perm-%d-r%d" % (ks, r), {"API": 30, "KS": ks, "VL1": r}, D.perm_real(ks), [], [], "portable permutation (real code)", tier,
+                               backend="sat", unwind=60))
+    meta = {
+        "functions": ["every public AEAD/SIV/hash/HMAC/HKDF/PBKDF2/PRNG entry point, tinyjambu_aead_check_tag, tinyjambu_clean, the portable permutations"],
+        "units": ["all library TUs of the host build, compiled by goto-cc and instrumented with goto-instrument --branch"],
+        "bounds": "CONTROL FLOW on the C sources: two runs with equal public shapes and independent symbolic secrets (keys, nonces, AD, messages, "
+                  "packets incl. tags, passwords, salts, HMAC/HKDF key material, PRNG V/C/entropy/fed data, hash input, permutation state) must "
+                  "produce identical taken/not-taken traces at every conditional jump of the library code (and of the memcpy/memset byte-loop "
+                  "stubs). Shapes: AEAD/SIV 6 (ad, m) pairs x 3 key sizes x enc/dec (SIV thinner; thorough 63 pairs), check_tag plaintext 0..31, hash "
+                  "6 (n, split) pairs, HMAC key classes {0, <64, 64, >64}, HKDF, PBKDF2 counts 2..3, PRNG with reseed before / inside / none and "
+                  "short deliveries, clean in two configurations, the real permutation at r in {1,5,8}.  The accept/reject verdict is NOT constrained "
+                  "to be equal, so the tag check and plaintext clearing are shown to follow one path whichever byte differs. The assembly backends' "
+                  "control flow is decided in C05 (every branch condition concrete given the round count).",
+        "outside": "MEMORY ADDRESSES: the goto-level instrumentation observes branches only; address independence is not decided by this check "
+                   "(the E3 LLVM-IR executor of DESIGN 3 is not built; see DESIGN 8). Machine code after instruction selection (a select may "
+                   "become a branch), gcc/clang optimisation levels, microarchitectural channels.",
+        "stubs": AEAD_STUBS + [FOLD_STUB], "assumptions": AEAD_ASSUME + ["goto-instrument --branch instruments every conditional goto of the library binary"],
+        "relies_on": ["C05 (assembly control flow)"],
     }
     return jobs, meta
 
